@@ -147,7 +147,7 @@ def tlc_printed(out, tag):
     """Extracts JSON payloads printed by PrintT(<<tag, ToJson(..)>>)."""
     pref = '<<"%s", "' % tag
     items = []
-    for line in out.splitlines():
+    for line in out.split("\n"):
         if line.startswith(pref) and line.endswith('">>'):
             body = line[len(pref):-3]
             items.append(json.loads('"' + body + '"'))
@@ -174,7 +174,7 @@ def validate_trace(trace_module, cfg, trace_path, env=None, timeout=900, tag=Non
 
 def tlc_printed_raw(out, tag):
     pref = '<<"%s"' % tag
-    return [l for l in out.splitlines() if l.startswith(pref)]
+    return [l for l in out.split("\n") if l.startswith(pref)]
 
 
 def check_vacuity(res, required_actions):
@@ -195,7 +195,7 @@ def run_xtv(args, timeout=3600, env=None, input=None):
         raise ToolError("harness timed out: xtv %s" % " ".join(map(str, args)))
     out = p.stdout.decode("utf-8", "replace")
     summ = None
-    for line in out.splitlines():
+    for line in out.split("\n"):
         if line.startswith("XTV-SUMMARY "):
             summ = json.loads(line[len("XTV-SUMMARY "):])
     if summ is None:
